@@ -147,6 +147,15 @@ ASSUMES = [
     "c4: if a button-1 press is delivered to a selectable leaf that has a cursor and every container on the path moves the focus on a "
     "press (no Scrollable/ScrollBar, not an Overlay's bottom), the root must report the leaf's own cursor translated by the leaf's top-left "
     "as read off a fresh render",
+    "round 5: ~25% of the flow / fixed spies have geometry that depends on the focus ARGUMENT (rows(size, focus) / pack(size, focus) / "
+    "render(size, focus); flow: extra rows, narrower-or-wider pack width; fixed: extra cols/rows when focused); get_cursor_coords and "
+    "move_cursor_to_coords have no focus argument and answer for the focused geometry. For trees with such leaves: clause 3 is judged only "
+    "below containers that were rendered in focus (urwid's containers 'guess focus==True' there by documented FIXME), the cursor row after "
+    "an accepted move is judged only if the target leaf's rectangle did not change, clause 1 is judged for containers on the focus chain "
+    "only, and the after-press/move/key clause-1 checks first re-establish the fit precondition by a fresh render. A disagreement that "
+    "disappears when those leaves are made ordinary carries '|focus-dependent-geometry' (kind collapsed to its family)",
+    "size histories may contain key presses and button-1 presses at the other size; these legitimately change what is drawn, so the tree "
+    "is observed afresh at the probe size afterwards (what carries over is widget state such as ListBox offsets, not canvases)",
     "a fixed spy raises ValueError when handed a non-() size, like urwid's own fixed-only widgets raise WidgetError",
     "size histories: the fit precondition is established at the probe size S only; the other sizes need not fit and exceptions raised while "
     "touching them are counted, not judged; if rendering at S after the history shows another picture than the canvas kept for S (scroll "
@@ -819,7 +828,8 @@ class Case:
         ctx = self.ctx
         lf = of.cellmap[cell]
         handled = [e[2] for e in self.log if e[0] == "mouse_ret" and e[1] == lf.sid]
-        pressed_local = (cell[0] - of.rects[lf.sid][0], cell[1] - of.rects[lf.sid][1])
+        # the cell the Edit itself was told (whether the containers translated it correctly is judged by c2b, not here)
+        pressed_local = (entries[0][5], entries[0][6]) if len(entries) == 1 else (cell[0] - of.rects[lf.sid][0], cell[1] - of.rects[lf.sid][1])
         self.clause1(of, when="after-press", extra={"after_press": [cell[0], cell[1]]})
         if not (len(entries) == 1 and entries[0][1] == lf.sid):
             return
@@ -846,7 +856,8 @@ class Case:
             self.viol("c4", f"get_cursor_coords-after-press-raise:{exc_kind(e)}", lf, f"after button-1 press at {cell}: {type(e).__name__}: {e}", op)
             return
         ctx.count("c4_press_cursor_evals")
-        if lf.kind == "Edit" and handled and handled[-1] is True:
+        # (not in trees with focus-dependent geometry: the press may move the focus and re-lay the Edit out at another width)
+        if lf.kind == "Edit" and handled and handled[-1] is True and not self.fdep and tuple(o3.rects[lf.sid]) == tuple(of.rects[lf.sid]):
             # a press an Edit reports as handled is a move_cursor_to_coords to that cell: the cursor must be on the pressed row
             ctx.count("c4_edit_press_row_evals")
             if own[1] != pressed_local[1]:
@@ -1301,7 +1312,8 @@ class _NoCount:
 
 
 def run_same(q, recipe, size, focus, hist, key) -> bool:
-    return any((g["clause"], g["kind"]) == key for g in run_collect(q, recipe, size, focus, hist))
+    fam = (key[0].rstrip("b"), kind_family(key[1]))
+    return any((g["clause"].rstrip("b"), kind_family(g["kind"])) == fam for g in run_collect(q, recipe, size, focus, hist))
 
 
 def blame(recipe, size, focus, v, hist=None):
@@ -1467,16 +1479,16 @@ def report(ctx, recipe, size, viols, focus=True, hist=None):
                 break
         clause = best["clause"]
         path, mode = best["path"], best.get("mode") or mode_of(s)
-        if hist is not None and not run_same(q, r, s, focus, None, key):
+        has_fdep = best["clause"] in ("c2", "c2b", "c3") and bool({"focus-dependent-rows", "focus-dependent-width"} & T.kinds_of(r))
+        if has_fdep and not run_same(q, neutral(r), s, focus, hist, key):
+            # needs a leaf whose geometry depends on the focus argument (the same tree and history with those leaves made ordinary is fine)
+            stale = "|focus-dependent-geometry"
+        elif hist is not None and not run_same(q, r, s, focus, None, key):
             # the same tree probed right after a fresh render does not show it: the per-size state left by the history is needed
             stale = "|before-render" if hist.get("cold") else "|after-other-size"
         else:
             stale = ""
-        if not stale and best["clause"] in ("c2", "c2b", "c3") and ({"focus-dependent-rows", "focus-dependent-width"} & T.kinds_of(r)):
-            # does it need a leaf whose geometry depends on the focus argument?  (same tree with those leaves made ordinary)
-            if not run_same(q, neutral(r), s, focus, hist, key):
-                stale = "|focus-dependent-geometry"
-        culprit = blame(r, s, focus, best, hist if stale in ("|after-other-size", "|before-render") else None)
+        culprit = blame(r, s, focus, best, hist if stale else None)
         if culprit is not None:
             path, mode = culprit
         if stale:
@@ -1490,7 +1502,7 @@ def report(ctx, recipe, size, viols, focus=True, hist=None):
             # which wrong cell a stale layout happens to hit (none / neighbour / shifted col or row) is an accident of the sizes
             sigkind = kind_family(sigkind)
         sig = f"C09|{clause}|{sigkind}{stale}|{mode}|{path}"
-        wit = {"recipe": strip(r), "size": s, "focus": focus, "hist": hist if stale in ("|after-other-size", "|before-render") else None, "clause": clause, "kind": best["kind"], "op": best["op"], "blamed": path}
+        wit = {"recipe": strip(r), "size": s, "focus": focus, "hist": hist if stale else None, "clause": clause, "kind": best["kind"], "op": best["op"], "blamed": path}
         seen_sigs.append(sig)
         ctx.violation(sig, best["msg"] + f"  [root rendered at {tuple(s)}]", wit)
 
